@@ -202,6 +202,57 @@ def run(tier, seed, replay=None):
                     budget[lang] -= 1
                     model_cases.append((f"enc_scan (scan_file (lang_code {li}) {extra[0]})", got,
                                         {"language": lang, "file": name, "insertions": desc}))
+    # ---- through the scanner on disk: header files (*.h, *.hh: extensions several Pygments lexers claim) with comments
+    #      whose TEXT looks like another language must still be measured, and measured the same
+    import shutil
+    import tempfile
+    from pathlib import Path
+    from codelimit.common import Scanner
+    objc = ["// @endcode", "/* @interface Foo @end */", "// mail dev@3com.example", '// @"literal"', "/* @protocol P */", "// #import <x.h>",
+            "// [see below]"]
+    tmp = tempfile.mkdtemp(prefix="verif_c04h_")
+    try:
+        for i in range(12 if tier == "quick" else 200):
+            lang, ext = ("C", "h") if i % 2 == 0 else ("Cpp", "hh")
+            text = progen.generate(seed * 53 + i, lang, {"long_bodies": False, "comments": i % 3 == 0})["text"]
+            lines = text.split("\n")
+            rng = random.Random(seed * 7 + i)
+            k = rng.randrange(0, len(lines))
+            ins = rng.choice(objc)
+            mod = lines[:k] + [ins] + lines[k:]
+            if rng.random() < 0.5:
+                mod = [rng.choice(objc)] + mod
+                k0 = 1
+            else:
+                k0 = 0
+            res = []
+            for name, body in (("base", lines), ("mod", mod)):
+                d = os.path.join(tmp, f"{name}{i}")
+                os.makedirs(d)
+                with open(os.path.join(d, f"m.{ext}"), "w") as f:
+                    f.write("\n".join(body))
+                try:
+                    cb = Scanner.scan_path(Path(d))
+                    e = cb.files.get(f"m.{ext}")
+                    res.append(None if e is None else [(m.unit_name, m.value) for m in e.measurements()])
+                except Exception as ex:
+                    res.append(f"{type(ex).__name__}: {ex}")
+                shutil.rmtree(d, ignore_errors=True)
+            chk.evaluations += 1
+            chk.count("header file through the scanner, comment inserted")
+            # only token-safe insertions count: the C code tokens must be the same up to the line shift
+            try:
+                same = [(a, b) for a, b, _, _ in code_stream(lang, "\n".join(lines))] == [(a, b) for a, b, _, _ in code_stream(lang, "\n".join(mod))]
+            except AssertionError:
+                same = False
+            if same and res[0] != res[1]:
+                chk.violation({"language": lang, "file": f"m.{ext}", "inserted": ins, "original": text, "modified": "\n".join(mod)},
+                              f"m.{ext} scanned from disk: inserting the comment {ins!r} changes the functions (name, length) "
+                              f"from {str(res[0])[:150]} to {str(res[1])[:150]}")
+            elif same and res[0]:
+                chk.nontrivial.add(("hdr", i))
+    finally:
+        shutil.rmtree(tmp, ignore_errors=True)
     chk.samples = [c for _, _, c in model_cases[:4]]
     if model_ok:
         mism, err = eval_cases("C04", IMPORTS, [(m, o) for m, o, _ in model_cases], shard=12)
